@@ -115,6 +115,9 @@ func Loop(r lineReader, p Parser, vm *vm.Type, doOut bool) {
 			break
 		}
 
+		// the file reader keeps the line terminator, readline does not
+		line = strings.TrimSuffix(line, "\n")
+
 		open.scan(line)
 		input += sep + line
 		sep = "\n"
